@@ -61,6 +61,9 @@ pub(crate) fn decrypt_kdbx4(
     //      header_sha256       - A Sha256 hash of header_data (for verification of header integrity)
     //      header_hmac         - A HMAC of the header_data (for verification of the key_elements)
     //      hmac_block_stream   - A HMAC-verified block stream of encrypted and compressed blocks
+    if data.len() < inner_header_start + 64 {
+        return Err(DatabaseIntegrityError::InvalidFixedHeader { size: data.len() }.into());
+    }
     let header_data = &data[0..inner_header_start];
     let header_sha256 = &data[inner_header_start..(inner_header_start + 32)];
     let header_hmac = &data[(inner_header_start + 32)..(inner_header_start + 64)];
